@@ -447,6 +447,8 @@ CalcCanonical(c) ==
   /\ c.form = "colcok" => NVarOf(c.model) = 2 /\ c.ntgt = 1
   /\ c.form = "xvalid" => c.ntgt = 1 /\ CalcXvEqs(c) # {}
   /\ c.form = "bayes" => c.drift # "sk"
+  \* with known means KrigingCalcul takes one mean per right-hand side: one target (nrhs = nvar)
+  /\ c.drift = "sk" => c.ntgt = 1
 CalcPart(k) == {c \in CalcAll(k) : CalcCanonical(c)}
 CalcPromised(c) ==
   LET U == IF c.form = "xvalid" THEN KUsable(c) \ {c.xv} ELSE KUsable(c)
